@@ -262,6 +262,9 @@ func C09(c *Ctx) {
 	headPersistGroup(c, "K12.vlog-head-persisted-on-file-change")
 	partialAckCoverageGroup(c, "K1.failed-request-gets-error")
 	segmentNamesGroup(c, "K12.segment-name-codec")
+	flushNeverSkippedGroup(c, "K11.failed-flush-never-skipped")
+	manifestCreateGroup(c, "K2.manifest-created-only-when-absent")
+	vlogRewindGroup(c, "K2.vlog-append-failure-rewound")
 	// ---- rule 5: durability results are never discarded ------------------------------
 	const r5 = "K8.durability-error-not-dropped"
 	c.Rule(r5, "the error result of manifest LogEdit(s)/LogValueLog*, wal Append/AppendRecords/Sync/Rotate, vlog SyncFIDs/SyncActive, File.Sync and File.Truncate is used (not dropped, not blank-assigned) at every call site in non-test module code; frozen exceptions carry a reason")
